@@ -11,6 +11,28 @@ use dnssector::constants::*;
 use dnssector::synth::r#gen;
 use dnssector::*;
 
+extern "C" {
+    fn dv_c_op(
+        table: *const dnssector::c_abi::FnTable,
+        pp: *mut ParsedPacket,
+        op: *const std::os::raw::c_char,
+        out: *mut std::os::raw::c_char,
+        cap: usize,
+    ) -> i32;
+}
+
+/// One facade operation issued through the C function table by the C driver.
+fn facade(pp: &mut ParsedPacket, op: &str) -> String {
+    let table = dnssector::c_abi::fn_table();
+    let cop = std::ffi::CString::new(op).unwrap();
+    let mut out = vec![0u8; 1 << 20];
+    unsafe {
+        dv_c_op(&table, pp, cop.as_ptr(), out.as_mut_ptr() as *mut _, out.len());
+    }
+    let n = out.iter().position(|&c| c == 0).unwrap_or(out.len());
+    String::from_utf8_lossy(&out[..n]).to_string()
+}
+
 fn unhex(s: &str) -> Vec<u8> {
     if s == "-" {
         return Vec::new();
@@ -676,6 +698,21 @@ fn run_op(ctx: &mut Ctx, op: &str) -> String {
                 Some(pp) => pp,
             };
             match f[0] {
+                "F" => facade(pp, &op[2..]),
+                "fg" => format!("fg[fl={} rc={} op={}]", pp.flags(), pp.rcode(), pp.opcode()),
+                "fq" => match pp.question() {
+                    None => "fq=-".to_string(),
+                    Some((n, t, _)) => format!("fq={}/{}", hex(&n), t),
+                },
+                "we" => {
+                    let mut n = 0usize;
+                    let mut it = pp.into_iter_edns();
+                    while let Some(item) = it {
+                        n += 1;
+                        it = item.next();
+                    }
+                    format!("we={}", n)
+                }
                 "b" => format!("b={}", hex(pp.packet())),
                 "v" => format!("v[{}]", view(pp)),
                 "fp" => {
